@@ -86,6 +86,9 @@ def criteria(rng):
         "extract-attimezone": lambda r: fn.Extract("year", F(r[0])) == T.AtTimezone(F(r[1]), "UTC"),
         "not-isnull": lambda r: ~(F(r[0]) == F(r[1])) | F(r[0]).isnull(),
         "three": lambda r: (F(r[0]) == F(r[1])) & (F(r[2 % len(r)]) == 1),
+        # a column WITHOUT a table refers to no source at all: it can never make a join invalid
+        "with-bare-column": lambda r: (F(r[0]) == F(r[1])) & (T.Field("bare") == 1),
+        "bare-under-function": lambda r: (fn.Lower(T.Field("bare")) == F(r[1])) & (F(r[0]).isin([T.Field("bare2"), 3])),
     }
 
 
